@@ -5,6 +5,12 @@ whether it hears it).  Loss is absent unless a `loss` callback says otherwise.  
 the other nodes' software is cooperative and deterministic: a node whose radio received
 something gets its `update` callback run at the next *poll point* - an SPI transaction of any
 radio that is itself listening - unless that node is already on the call stack.
+
+Symbolic schedules (`symbolic_schedule`): the first K times a pending node could run, a fresh
+symbolic boolean decides whether it runs now or is held back (MCU timing jitter: the node's
+software is late).  A held-back node stays pending; it runs at a later poll point, before a 4th
+payload would overflow its FIFO, or when the harness lets the network settle.  All 2**K
+schedules are explored by the engine as one symbolic variable per decision.
 """
 from vsym.core import NonTermination
 
@@ -18,6 +24,8 @@ class Medium:
         self.errors = []  # (node name, exception) raised by cooperatively scheduled nodes
         self.depth = 0
         self.enabled = True
+        self.defer = None  # fn(radio) -> truth value: the pending node does NOT run at this poll point (symbolic schedule)
+        self.deferred = 0  # how many times a pending node was held back
 
     def add(self, radio):
         radio.medium = self
@@ -47,6 +55,9 @@ class Medium:
             return
         for r, st in list(self.nodes.items()):
             if st[2] and not st[1]:
+                if self.defer is not None and self.defer(r):
+                    self.deferred += 1  # stays pending: runs at a later poll point, when its FIFO fills up, or at settling
+                    continue
                 self._run(r)
 
     def _run(self, r):
@@ -82,6 +93,27 @@ class Medium:
                          "no_ack": pkt.no_ack, "uid": pkt.uid, "attempt": attempt,
                          "heard": heard, "acked": ack is not None})
         return ack
+
+
+def symbolic_schedule(ctx, med, k, only=None, hold=1):
+    """install the symbolic schedule on `med`: K hold-back decisions (`only`: names of the radios that may be late); a node
+    that is held back misses the next `hold` poll points (SPI transactions of listening radios) before it is considered again"""
+    asked = [0]
+    held = {}
+
+    def defer(radio):
+        if held.get(radio.name, 0) > 0:
+            held[radio.name] -= 1
+            return True
+        if asked[0] >= k or (only is not None and radio.name not in only):
+            return False
+        asked[0] += 1
+        if bool(ctx.bool("late_%d" % (asked[0] - 1))):
+            held[radio.name] = hold - 1
+            return True
+        return False
+    med.defer = defer
+    return asked
 
 
 class ScriptedLink:
